@@ -5,6 +5,12 @@
 set -u
 IDS="$1"; FILE="$2"; OLD="$3"; NEW="$4"; TIER="${5:-quick}"
 cd /repo || exit 2
+if [ -z "${VERIF_LOCK_HELD:-}" ]; then
+  mkdir -p /verif/target
+  exec 8>/verif/target/.repo.lock
+  flock -x 8
+  export VERIF_LOCK_HELD=1
+fi
 if [ -n "$(git status --porcelain -- src)" ]; then echo "repo dirty"; exit 2; fi
 python3 - "$FILE" "$OLD" "$NEW" <<'PY'
 import sys,re
